@@ -38,6 +38,6 @@ class TwoWay(histories.InvariantMonitor):
 def run_shard(spec, acc):
   flags = {'bundle_multi': 0.3, 'max_tables': 3, 'max_rows': 8, 'wrong': 0.05}
   mon = TwoWay(['C11'])
-  undo = histories.UndoRedoMonitor(check_undo=False, check_redo=False, final_unwind=False)
+  undo = histories.UndoRedoMonitor(check_undo=False, check_redo=False, final_unwind=False, aux=True)
   h = histories.History(acc, spec['hseed'], [mon, undo], spec['steps'], weights=WEIGHTS, flags=flags)
   h.run()
